@@ -5,6 +5,7 @@
 -/
 import NextestModel.Model.Classify
 import NextestModel.Lemmas.Attempts
+import NextestModel.Gen.Tables
 namespace NextestModel.C07
 open NextestModel.Classify
 
@@ -197,5 +198,15 @@ example : runTestInstance (.fixed 2 5 false) { outcome := fun _ => .fail none fa
     some [.started, .spawn 1, .willRetry 1 (.fail none false) 5, .retryStarted 2] := by decide
 
 end loop
+
+/-- **the attempt loop of `run_test_instance` is the loop of `Model/Attempts`** (executor.rs, as read on this run): the loop's
+    text is exactly six segments in this order, with nothing else in it — the attempt number incremented first, from 0; for every
+    attempt after the first the `RetryStarted` handshake, whose refusal ends the unit without a result; one `run_test` per pass;
+    `break` on success; otherwise, exactly while `attempt < total_attempts`, the backoff iterator's next delay announced
+    (`AttemptFailedWillRetry`) and then waited (`handle_delay_between_attempts`); otherwise `break`; one `Finished` after the loop
+    with the status the loop ended with — clause by clause the `loop` / `runTestInstance` of the model, about which
+    `attempts_bound`, `stop_on_success`, `no_retry_unless_acknowledged`, `retried_until_pass_or_bound` and
+    `announced_delays_are_backoff` speak -/
+theorem attempt_loop_is_as_modelled : Gen.attemptLoopShape.length = 8 ∧ ∀ r ∈ Gen.attemptLoopShape, r.2 = true := by decide
 
 end NextestModel.C07
